@@ -146,6 +146,20 @@ def _variants(rng, n):
     return perms, sub
 
 
+def _paa_last_frame_lost(n, m):
+    """does PAA's float bookkeeping (frame length n/m) leave the last frame open after the last
+    point?  (the code then closes it in its 'lost due to double imprecision' branch; state carried
+    over from one instance to the next shows exactly on these (n, m))"""
+    fl, size, cur = n / m, 0, 0
+    for _ in range(n):
+        rem = fl - size
+        size = size + 1 if rem > 1 else size + rem
+        if size == fl:
+            cur += 1
+            size = 1 - rem
+    return cur == m - 1
+
+
 def _gen_closed(rng, t):
     n_inst = rng.choice([2, 3, 3, 4])
     c = {"kind": "closed", "t": t, "fit": None}
@@ -190,9 +204,18 @@ def _gen_closed(rng, t):
                    rng.choice([1, 2, 2, 3]), nmax=5)
         c.update(X=X)
     elif t == "paa":
-        n = rng.randint(2, 9)
+        n = rng.randint(2, 11)
         X = _panel(rng, "equal", n_inst, rng.choice([1, 1, 2]), n=n)
-        c.update(X=X, m=rng.choice([1, 2, 3, n, max(1, n - 1), rng.randint(1, n), n + 1]))
+        nondiv = [m for m in range(2, n) if n % m]
+        lossy = [m for m in nondiv if _paa_last_frame_lost(n, m)]
+        r = rng.random()
+        if lossy and r < 0.45:
+            m = rng.choice(lossy)      # the float running sums do not close the last frame
+        elif nondiv and r < 0.7:
+            m = rng.choice(nondiv)
+        else:
+            m = rng.choice([1, 2, 3, n, max(1, n - 1), rng.randint(1, n), n + 1])
+        c.update(X=X, m=m)
     elif t == "iseg_int":
         n = rng.randint(4, 10)
         X = _panel(rng, "equal", n_inst, 1, n=n)
